@@ -39,6 +39,8 @@
 #include "celeritas/track/SimParams.hh"
 #include "celeritas/track/TrackInitParams.hh"
 
+#include "vscripted.hh"
+
 namespace verif
 {
 using namespace celeritas;
@@ -55,6 +57,8 @@ struct ProblemOptions
     double table_scale{1.0};  //!< seed-dependent scaling of all cross sections
     double dedx{2.0};  //!< MeV/cm in the dense material
     size_type max_streams{1};
+    Script* script{nullptr};  //!< scripted physics instead of the EM processes
+    double electron_mass{0.5109989461};
 };
 
 inline ImportPhysicsVector logvec(std::vector<double> x, std::vector<double> y)
@@ -96,6 +100,7 @@ struct Problem
 inline void build_problem(Problem& p, ProblemOptions const& o)
 {
     using namespace units;
+    p.electron_mass = o.electron_mass;
     double const me = p.electron_mass;
     p.geo = std::make_shared<GeoParams>(o.geometry);
     MaterialParams::Input minp;
@@ -121,6 +126,13 @@ inline void build_problem(Problem& p, ProblemOptions const& o)
     ci.cutoffs = {{pdg::gamma(), {{MevEnergy{0.01}, 0.1}, {MevEnergy{0.01}, 0.1}}},
                   {pdg::electron(), {{MevEnergy{0.1}, 0.1}, {MevEnergy{0.1}, 0.1}}},
                   {pdg::positron(), {{MevEnergy{0.1}, 0.1}, {MevEnergy{0.1}, 0.1}}}};
+    if (o.script)
+    {
+        // scripted secondaries of 1/4 MeV are below every production cut, those >= 1 MeV above
+        ci.cutoffs = {{pdg::gamma(), {{MevEnergy{0.5}, 0.1}, {MevEnergy{0.5}, 0.1}}},
+                      {pdg::electron(), {{MevEnergy{0.5}, 0.1}, {MevEnergy{0.5}, 0.1}}},
+                      {pdg::positron(), {{MevEnergy{0.5}, 0.1}, {MevEnergy{0.5}, 0.1}}}};
+    }
     ci.apply_post_interaction = true;
     p.cutoff = std::make_shared<CutoffParams>(std::move(ci));
     p.action_reg = std::make_shared<ActionRegistry>();
@@ -248,6 +260,10 @@ inline void build_problem(Problem& p, ProblemOptions const& o)
                      std::make_shared<GammaConversionProcess>(p.particles, pdata, GammaConversionProcess::Options{}),
                      std::make_shared<EIonizationProcess>(p.particles, pdata, EIonizationProcess::Options{}),
                      std::make_shared<EPlusAnnihilationProcess>(p.particles, EPlusAnnihilationProcess::Options{})};
+    if (o.script)
+    {
+        pin.processes = {std::make_shared<ScriptedProcess>(p.particles, o.script, 0.4, 1e6)};
+    }
     pin.action_registry = p.action_reg.get();
     pin.options.secondary_stack_factor = o.secondary_stack_factor;
     p.physics = std::make_shared<PhysicsParams>(std::move(pin));
